@@ -13,19 +13,19 @@ import (
 )
 
 func init() {
-	register(&Rule{ID: "MAT-1", Props: []string{"C01", "C02"}, Floor: 5,
+	register(&Rule{ID: "MAT-1", Props: []string{"C01", "C02", "C10"}, Floor: 5,
 		Doc: "the argument vector is immutable during backtracking: no element store, copy destination or append base is a []string that is not freshly made in the same function", Run: mat1})
 	register(&Rule{ID: "MAT-2", Props: []string{"C02", "C09", "C13", "C15"}, Floor: 8,
 		Doc: "every string recorded into the context is a sub-slice of a command-line token or the literal \"true\"; the positional matcher records exactly args[0] and returns args[1:]", Run: mat2})
 	register(&Rule{ID: "MAT-3", Props: []string{"C01", "C09"}, Floor: 4,
 		Doc: "every matcher consults the options-ended flag", Run: mat3})
-	register(&Rule{ID: "MAT-4", Props: []string{"C12"}, Floor: 8,
+	register(&Rule{ID: "MAT-4", Props: []string{"C12", "C01"}, Floor: 8,
 		Doc: "every non-matching exit of the option matcher yields the env flag with the vector unchanged; a true verdict carries a matched sub-call's vector", Run: mat4})
 	register(&Rule{ID: "MAT-5", Props: []string{"C12"}, Floor: 2,
 		Doc: "consuming an occurrence never consults the env flag", Run: mat5})
-	register(&Rule{ID: "MAT-6", Props: []string{"C12", "C03"}, Floor: 1,
+	register(&Rule{ID: "MAT-6", Props: []string{"C12", "C03", "C10"}, Floor: 1,
 		Doc: "the group matcher excludes an env-backed option only after a match that recorded no value for it", Run: mat6})
-	register(&Rule{ID: "MAT-7", Props: []string{"C10", "C11"}, Floor: 6,
+	register(&Rule{ID: "MAT-7", Props: []string{"C10", "C11", "C02", "C01"}, Floor: 6,
 		Doc: "a foreign occurrence is skipped over exactly the tokens an own occurrence of that form consumes; an own match reports the number of tokens it dropped", Run: mat7})
 	register(&Rule{ID: "MAT-8", Props: []string{"C10", "C19"}, Floor: 7,
 		Doc: "sibling guards: own option only; empty '=' value is no match; separate value starting with '-' is no match; a flag (IsBool of the looked-up option) records \"true\"", Run: mat8})
